@@ -57,6 +57,14 @@ static struct {
  * returned exactly by the callers a signal or broadcast took off the list.  (3) TIMEDOUT is
  * returned exactly by the callers that unlinked themselves, and only at or after the
  * deadline (judged at the decision, not at the return). ---- */
+/* The library compares times as double seconds; once the virtual clock has jumped to a far
+ * deadline (10^10 s and beyond) one ulp of a double is microseconds.  "Passed" is judged with
+ * that granularity: two ulps of a double at the magnitude of now. */
+static int deadline_reached(uint64_t now, uint64_t dl)
+{
+    uint64_t tol = (now >> 51) + 2;
+    return now + tol >= dl;
+}
 static void whoami(int *tid, ABT_thread *th)
 {
     *th = ABT_THREAD_NULL;
@@ -105,7 +113,7 @@ static void cond_event(int kind, const void *obj, const void *who)
             wstate *w = w_by_elem(who);
             if (w) {
                 SIM_CHECK(!w->deq, "cond:timedout-although-signalled", "a timed waiter unlinks itself as timed out after a signal had taken it off the list");
-                SIM_CHECK(w->timed && sim_now_ns() >= w->deadline, "cond:timedout-before-deadline", "a waiter decides that it timed out %lu ns before its deadline",
+                SIM_CHECK(w->timed && deadline_reached(sim_now_ns(), w->deadline), "cond:timedout-before-deadline", "a waiter decides that it timed out %lu ns before its deadline",
                           (unsigned long)(w->deadline - sim_now_ns()));
                 w->unlinked = 1;
             }
@@ -268,7 +276,7 @@ static void do_wait(wl_actor *a, int dl_kind, int arg)
     } else {
         SIM_CHECK(r == ABT_ERR_COND_TIMEDOUT, "api-error", "cond wait returned %d", r);
         SIM_CHECK(w->timed, "cond:timeout-from-untimed-wait", "ABT_cond_wait returned ABT_ERR_COND_TIMEDOUT");
-        SIM_CHECK(sim_now_ns() >= w->deadline, "cond:timedout-before-deadline", "ABT_cond_timedwait of actor %d returned TIMEDOUT %lu ns before its deadline", a->id,
+        SIM_CHECK(deadline_reached(sim_now_ns(), w->deadline), "cond:timedout-before-deadline", "ABT_cond_timedwait of actor %d returned TIMEDOUT %lu ns before its deadline", a->id,
                   (unsigned long)(w->deadline - sim_now_ns()));
         S.timeouts++;
         w->in_lo = 0; /* expire() already removed it from L: its deadline has passed */
